@@ -65,13 +65,21 @@ Definition parseJSONPointer (p : str) : res (list str) :=
 
 (** array index segment: digits only, no sign, no leading zero *)
 Definition is_digit (c : N) : bool := N.leb 48 c && N.leb c 57.
-Definition parse_index (s : str) : option nat :=
+Definition index_N (s : str) : option N :=
   match s with
   | [] => None
   | c :: r =>
       if negb (forallb is_digit s) then None
       else if N.eqb c c_0 && negb (match r with [] => true | _ => false end) then None
-      else Some (N.to_nat (fold_left (fun a d => a * 10 + (d - 48))%N s 0%N))
+      else Some (fold_left (fun a d => a * 10 + (d - 48))%N s 0%N)
+  end.
+Definition parse_index (s : str) : option nat := option_map N.to_nat (index_N s).
+(* the index when it is below [len]: what the walk needs, without ever building a unary
+   number larger than the list (an index of 2^64 is an ordinary, failing, input) *)
+Definition index_below (s : str) (len : nat) : option nat :=
+  match index_N s with
+  | Some n => if N.ltb n (N.of_nat len) then Some (N.to_nat n) else None
+  | None => None
   end.
 
 (** dereferenceJSONPointer, returning the location of the target as well *)
@@ -91,7 +99,7 @@ Fixpoint deref_walk (v : pval) (segs : list str) (path : list seg) : res (list s
           end
       | PNilSchema => Err
       | PList l =>
-          match parse_index sg with
+          match index_below sg (length l) with
           | Some n =>
               match nth_error l n with
               | Some c => deref_walk (PSchema c) r (path ++ [SIdx n])
